@@ -3,7 +3,7 @@
    inductive types.  No Extract Constant. *)
 From Coq Require Import Extraction ExtrOcamlBasic.
 From GV Require Import Tables.ObsTypes Tables.Lookup Gen.Obs Tables.Enum.
-From GV Require Import Tables.Product Tables.RegFactory Tables.RegList Api.Api Api.Maps Api.Float.
+From GV Require Import Tables.Product Tables.RegFactory Tables.RegList Api.Api Api.Maps Api.Float Api.Fixed.
 From GV Require Import Ble.GoSem Ble.Layout Gen.BleImpl Ble.Handler Ble.Aes.
 From GV Require Import Base.Bytes Base.Hex Base.LE Vedirect.Frame Vedirect.Port Vedirect.Driver Vedirect.Judge Vedirect.Resync.
 Extraction Language OCaml.
@@ -15,7 +15,7 @@ Extraction "gvcore.ml"
   C01_call_ok C05_call_ok C06_call_ok call_is_typed call_is_get
   a_get_call a_get a_result_matches items_of_events
   obs_fieldlists fl_fields fl_render render_ok f_map f_name
-  number_value_bits connect read_register read_register_list rv_map stream_register_list stream_plan number_value trim_space obs_product obs_reglist class_of
+  number_value_bits number_value_fixed6 connect read_register read_register_list rv_map stream_register_list stream_plan number_value trim_space obs_product obs_reglist class_of
   enum_map_of fl_of new_enum int_of_uint64 le_uint le_int strip_nul
   rl_run rl_step rl_empty rl_len rl_get_registers obs_family_bmv obs_family_solar obs_family_inverter
   spec_decode layout_len
